@@ -46,9 +46,8 @@ structure ServerOK (p : Str) : Prop where
   dot : '.' ∈ p
 
 theorem serverOK_of_cfg {c : Cfg} (h : c.valid = true) : ServerOK c.server := by
-  unfold Cfg.valid at h
-  simp only [Bool.and_eq_true] at h
-  exact ⟨(wordOK_of_valid h.1.2).noBang, contains_iff.mp h.2⟩
+  have hc := cfgOK_of_valid h
+  exact ⟨(wordOK_of_valid hc.server).noBang, hc.dot⟩
 
 theorem server_ne_nick {p n : Str} (hp : ServerOK p) (hn : NickOK n) : p ≠ n := by
   intro e; subst e; exact hn.noDot hp.dot
@@ -92,7 +91,7 @@ theorem prelude_server {b : Bot} {p : Str} (hp : '!' ∉ p) (cmd : Str) (args : 
 theorem coupled_seen {s : Srv} {b : Bot} (hc : Coupled s b) {k : Str} {u : SUser}
     (hu : aget s.users k = some u) (hk : lower u.nick = k) (hbot : k = s.botKey → True) :
     Coupled s (b.seen u) := by
-  refine ⟨hc.nick, hc.chans, ?_, ?_, hc.cfgNick, hc.cfgIdent⟩
+  refine ⟨hc.nick, hc.chans, ?_, ?_, hc.cfgNick, hc.cfgIdent, hc.isup⟩
   · intro k' u' hu' hv
     show aget (aset b.n2h (lower u.nick) u.mask) k' = some u'.mask
     rw [aget_aset]
@@ -126,7 +125,7 @@ theorem coupled_update {s s' : Srv} {b b' : Bot} (hc : Coupled s b) (kc : Str)
     (hchans : ∀ k, k ≠ kc → aget s'.chans k = aget s.chans k)
     (hbch : ∀ k, k ≠ kc → aget b'.channels k = aget b.channels k)
     (hrel : ChanRel s' kc (aget s'.chans kc) (aget b'.channels kc))
-    (hnick : b'.nick = b.nick) (hcn : b'.cfgNick = b.cfgNick) (hci : b'.cfgIdent = b.cfgIdent)
+    (hnick : b'.nick = b.nick) (hcn : b'.cfgNick = b.cfgNick) (hci : b'.cfgIdent = b.cfgIdent) (hsup : b'.isup = b.isup)
     (hn2h : ∀ k u, aget s.users k = some u → k ∈ s'.told → aget b'.n2h k = some u.mask)
     (hpfx : ∀ u, aget s.users s.botKey = some u → b.pfx = u.mask → b'.pfx = u.mask)
     (hpfxnew : ∀ sc', aget s'.chans kc = some sc' → sc'.has s.botKey = true →
@@ -134,7 +133,7 @@ theorem coupled_update {s s' : Srv} {b b' : Bot} (hc : Coupled s b) (kc : Str)
     Coupled s' b' := by
   have hbk : s'.botKey = s.botKey := by simp [Srv.botKey, hbot]
   refine ⟨by rw [hnick, hbot]; exact hc.nick, ?_, ?_, ?_, by rw [hcn, hcfg]; exact hc.cfgNick,
-    by rw [hci, hcfg]; exact hc.cfgIdent⟩
+    by rw [hci, hcfg]; exact hc.cfgIdent, by rw [hsup]; exact hc.isup⟩
   · intro k
     by_cases hk : k = kc
     · subst hk; exact hrel
@@ -158,13 +157,13 @@ theorem coupled_update' {s s' : Srv} {b b' : Bot} (hc : Coupled s b) (kc : Str)
     (hchans : ∀ k, k ≠ kc → aget s'.chans k = aget s.chans k)
     (hbch : ∀ k, k ≠ kc → aget b'.channels k = aget b.channels k)
     (hrel : ChanRel s' kc (aget s'.chans kc) (aget b'.channels kc))
-    (hnick : b'.nick = b.nick) (hcn : b'.cfgNick = b.cfgNick) (hci : b'.cfgIdent = b.cfgIdent)
+    (hnick : b'.nick = b.nick) (hcn : b'.cfgNick = b.cfgNick) (hci : b'.cfgIdent = b.cfgIdent) (hsup : b'.isup = b.isup)
     (hn2h : b'.n2h = b.n2h) (hp : b'.pfx = b.pfx)
     (hsub : ∀ sc sc', aget s.chans kc = some sc → aget s'.chans kc = some sc' →
        sc'.has s.botKey = true → sc.has s.botKey = true)
     (hnew : ∀ sc', aget s.chans kc = none → aget s'.chans kc = some sc' → sc'.has s.botKey = false) :
     Coupled s' b' := by
-  refine coupled_update hc kc hu hbot hcfg (fun k _ => ⟨by simp [Srv.mSynced, hms], by simp [Srv.bSynced, hbs]⟩) hchans hbch hrel hnick hcn hci ?_ ?_ ?_
+  refine coupled_update hc kc hu hbot hcfg (fun k _ => ⟨by simp [Srv.mSynced, hms], by simp [Srv.bSynced, hbs]⟩) hchans hbch hrel hnick hcn hci hsup ?_ ?_ ?_
   · intro k u hk ht; rw [hn2h]; rw [htold] at ht; exact hc.hosts k u hk ht
   · intro u _ h; rw [hp]; exact h
   · intro sc' hsc' h1
